@@ -73,6 +73,11 @@ def _programs(tier):
             for tail in ("same", "longer"):
                 for other in ("ok", "upd", "wrong", "gone", "new"):
                     progs.append({"sh": "nested", "s": list(slots), "t": tail, "o": other})
+    # four-slot constructor calls (two surviving keywords around a deleted default and an inserted argument)
+    for slots in itertools.product(("ok", "wrong", "default", "absent"), repeat=4):
+        if "default" in slots and "absent" in slots:
+            for cls in ("DC4", "NT4") + (("AT4",) if tier != "quick" else ()):
+                progs.append({"sh": "dc", "s": list(slots), "cls": cls})
     # asserted bodies without trim: every single-category run lets the test continue, so orders must still converge
     menu = list(range(len(ASSERTED)))
     for k in (2, 3):
